@@ -26,3 +26,4 @@ def check(ctx):
             if "LocalSpanStack" in fn.term(b)["arg_tys"][0]:
                 inv.check_borrow_site(fn, b, "R3", rid_user="R3", rid_nested="R3b")
     provrules.rule_token_items(ctx, facts, "R4", fields=("trace_id", "parent_id", "is_sampled"))
+    provrules.rule_context_constructors(ctx, facts, "R4")
